@@ -30,7 +30,9 @@ EXPLANATION = (
     "`default`, a property's `Default(v)`) is handed to the validator outside the validator family itself, the answer is "
     "matched for `DefaultKind::Generic(f)` and f is inserted into the space's set of shared default functions — the "
     "renderer only names those functions, this set is what defines them; (W3) the generator never writes to a schema's "
-    "annotations (`schemars::schema::Metadata`, where `default` lives): they are only read."
+    "annotations (`schemars::schema::Metadata`, where `default` lives): they are only read; (D7) the default validators look for repeated "
+    "elements (a `uniqueItems` default) among all pairs: a neighbour-only comparison (`windows(2)`) is complete only on sorted "
+    "data, and JSON values have no order."
 )
 ASSUMPTIONS = ["serde_json::Value::as_* / is_* semantics as documented", "the rendered literal's numeric value is not decided (see DESIGN.md)"]
 
@@ -146,6 +148,7 @@ def run(facts, rep, tier):
     c = facts.impl
     run_w2(facts, rep)
     run_w3(facts, rep)
+    run_d7(facts, rep)
     val, ren = find_mirror(c)
     if not rep.floor("C06.D1", "default validator / renderer pair", (1 if val else 0) + (1 if ren else 0), 2):
         return
@@ -275,7 +278,37 @@ def run(facts, rep, tier):
                     for vn in vnames:
                         for kn in knames:
                             optional.add((vn, kn))
-        kind_to_variant = {"null": "Null", "bool": "Bool", "string": "String", "array": "Array", "object": "Object", "u64": "Number", "neg": "Number", "float": "Number"}
+        # an arm that answers Optional for a *present* default claims "this default is the type's intrinsic one": its test of
+        # the value must be exact (a literal pattern, `is_empty()`, `as_x() == Some(0)`), never a lossy conversion
+        if cm:
+            from lib import Canon
+            cnc = Canon(c, c.hir[classifier], 0)
+            n_int = 0
+            for arm in cm["arms"]:
+                if arm["pat"].get("k") != "tuple" or len(arm["pat"]["pats"]) != 2:
+                    continue
+                p0, p1 = arm["pat"]["pats"]
+                if "Optional" not in src(block_last(arm["body"])) or psrc(p1).endswith("None"):
+                    continue
+                n_int += 1
+                cell = "%s/%s" % ("|".join(x["path"].split("::")[-1] for x, _ in walk(p0) if x.get("path") and "TypeEntryDetails" in x["path"]),
+                                  "|".join(x["path"].split("::")[-1] for x, _ in walk(p1) if x.get("path") and "serde_json" in x["path"]))
+                g = arm.get("guard")
+                binds = [b_ for b_, _ in walk(p1) if b_.get("k") == "bind"]
+                if g is None:
+                    ok = not binds  # literal pattern (Null, Bool(false)): exact by construction
+                    why = "literal pattern" if ok else "binds the value and answers Optional without testing it"
+                else:
+                    t = cnc.r(g)
+                    exact = (re.fullmatch(r"\$[^()]+\.is_empty\(\)", t) or re.fullmatch(r"\(\$[^()]+\.as_(u64|i64|f64)\(\) Eq Some\((0|0\.0)\)\)", t)) and " And " not in t and " Or " not in t
+                    lossy = re.search(r"unwrap_or|unwrap_or_default|unwrap_or_else| as |round\(|floor\(|trunc\(", t)
+                    ok = bool(exact) and not lossy
+                    why = "`%s`" % src(g)[:60] if ok else "`%s` is not an exact test of the value against the intrinsic default%s" % (src(g)[:80], " (a failed conversion is read as the default)" if lossy else "")
+                rep.ob("C06.D2", "intrinsic-test-is-exact:%s#%d" % (cell, sum(1 for o in rep.obligations if o["key"].startswith("C06.D2/intrinsic-test-is-exact:%s#" % cell))), ok,
+                       "Optional only when the default is exactly the intrinsic one: %s" % why if ok else
+                       "the classifier answers Optional (serde's bare `default`, i.e. the intrinsic value) for a default it has not shown to be the intrinsic one: %s — the schema's default is silently replaced and never validated" % why, arm.get("sp"))
+            rep.floor("C06.D2", "classifier arms answering Optional for a present default", n_int, 6)
+        kind_to_variant = {"null": "Null", "bool": "Bool", "string": "String", "array": "Array", "object": "Object", "u64": "Number", "big": "Number", "neg": "Number", "float": "Number"}
         for vn in panicking:
             ks = lookup(vc, vn)
             ks = ks[0] if ks else ALL
@@ -567,3 +600,20 @@ def run_w3(facts, rep):
                     reads += 1
     rep.ob("C06.W3", "annotations-read-only", writes == 0, "no write to a Metadata field (%d reads)" % reads if writes == 0 else "%d writes to Metadata fields" % writes, nontrivial=False)
     rep.floor("C06.W3", "reads of Metadata fields (the matcher sees them)", reads, 8)
+
+
+def run_d7(facts, rep):
+    from lib import neighbour_tests
+    c = facts.impl
+    fam = [h for h in c.user_fns() if "DefaultKind" in c.fns.get(h["fn"], {}).get("output", "")]
+    bad = 0
+    for h in fam:
+        for (n, recv, sorted_before) in neighbour_tests(h):
+            if not sorted_before:
+                bad += 1
+                rep.ob("C06.D7", "duplicates-among-all-pairs:%s#%d" % (h["fn"], bad), False,
+                       "`%s.windows(2)` compares neighbours only and `%s` is not sorted first: a default like [a, b, a] for a `uniqueItems` array passes the duplicate test and is emitted for a set type" % (recv, recv), n.get("sp"))
+    rep.ob("C06.D7", "duplicates-among-all-pairs", bad == 0, "no neighbour-only pair test on unsorted data in the %d default validators" % len(fam) if bad == 0 else "%d neighbour-only tests" % bad, nontrivial=False)
+    # the matcher is alive: the struct-member converter's duplicate-field test is a (sorted) neighbour test
+    alive = sum(len(neighbour_tests(h)) for h in c.user_fns())
+    rep.info("D7: %d neighbour (windows) tests seen in the crate; none may sit unsorted in a default validator" % alive)
